@@ -105,14 +105,14 @@ structure St where
   cls : Nat → Cls
   val : Nat → Nat         -- current value of payload id (0 once moved from)
   dcnt : Nat → Nat        -- how many times payload id was destroyed
-  allocs : Nat
-  deallocs : Nat
+  allocs : Nat → Nat      -- per allocator id: allocations made through it
+  deallocs : Nat → Nat    -- per allocator id: deallocations made through it
   copies : Nat
   armed : Bool
 
 def St.init : St :=
   { slot := fun _ => .none, next := 0, cls := fun _ => .sn, val := fun _ => 0, dcnt := fun _ => 0,
-    allocs := 0, deallocs := 0, copies := 0, armed := false }
+    allocs := fun _ => 0, deallocs := fun _ => 0, copies := 0, armed := false }
 
 /-- the counters are the fold of the observable events -/
 def St.record (s : St) : Event → St
@@ -124,10 +124,10 @@ def St.record (s : St) : Event → St
     { s with next := s.next + 1, cls := upd s.cls new (s.cls src), val := upd s.val new (s.val src),
              copies := s.copies + 1 }
   | .dtor id => { s with dcnt := upd s.dcnt id (s.dcnt id + 1) }
-  | .al _ => { s with allocs := s.allocs + 1 }
-  | .de _ => { s with deallocs := s.deallocs + 1 }
+  | .al a => { s with allocs := upd s.allocs a (s.allocs a + 1) }
+  | .de a => { s with deallocs := upd s.deallocs a (s.deallocs a + 1) }
 
-/-- the effect of one operation: what is emitted, the new wrapper variables, the result -/
+/-- the effect of one primitive action: what is emitted, the new wrapper variables, the result -/
 structure Eff where
   evs : List Event
   slots : Nat → Slot
@@ -144,6 +144,13 @@ def destroyEvs : Slot → List Event
   | .inl id => [.dtor id]
   | .heap id a => [.dtor id, .de a]
   | _ => []
+
+/-- a wrapper (or raw storage) that owns no payload and no heap state -/
+def Slot.hollow : Slot → Bool
+  | .none => true
+  | .heapNull => true
+  | .invalid => true
+  | _ => false
 
 inductive MoveRes
   | done (evs : List Event) (dst srcAfter : Slot)
@@ -173,41 +180,64 @@ def Mode.isConv : Mode → Bool
 def Cfg.place (cfg : Cfg) (c : Cls) (id a : Nat) : Slot :=
   if cfg.inplace c then .inl id else .heap id a
 
-def ctorEff (cfg : Cfg) (s : St) (j : Nat) (c : Cls) (v : Nat) (m : Mode) : Eff :=
-  let n := s.next
-  let a := m.alloc cfg
-  if m.isConv then
-    -- the caller's temporary is object n; the wrapped object is move-constructed from it
-    if c = .st && s.armed then
-      ⟨[.ctor n c v] ++ (if cfg.inplace c then [] else [.al a, .de a]) ++ [.dtor n], s.slot, .threw, false⟩
-    else
-      ⟨[.ctor n c v] ++ (if cfg.inplace c then [] else [.al a]) ++ [.move (n + 1) n, .dtor n],
-        upd s.slot j (cfg.place c (n + 1) a), .ok, s.armed⟩
-  else
-    ⟨(if cfg.inplace c then [] else [.al a]) ++ [.ctor n c v], upd s.slot j (cfg.place c n a), .ok, s.armed⟩
+/-- index of the pseudo-variable that holds the CALLER's temporary payload during a converting
+    construction / assignment (`W w(Payload(v))`, `w = Payload(v)`); `none` between operations -/
+abbrev tmp : Nat := 3
 
-def assignValueEff (cfg : Cfg) (s : St) (i : Nat) (c : Cls) (v : Nat) : Eff :=
-  let n := s.next
-  let a := cfg.dflt
-  let old := destroyEvs (s.slot i)
-  if c = .st && s.armed then
-    ⟨[.ctor n c v] ++ old ++ (if cfg.inplace c then [] else [.al a, .de a]) ++ [.dtor n],
-      upd s.slot i .invalid, .threw, false⟩
-  else
-    ⟨[.ctor n c v] ++ old ++ (if cfg.inplace c then [] else [.al a]) ++ [.move (n + 1) n, .dtor n],
-      upd s.slot i (cfg.place c (n + 1) a), .ok, s.armed⟩
+/-- The primitive actions the wrapper's member functions are composed of.  Every primitive checks
+    its own precondition and does nothing (`Res.bad`) when it does not hold, so that each of them
+    preserves the ownership invariant unconditionally (Proto/AnyObjectLemmas.lean). -/
+inductive Prim
+  | mkTemp (c : Cls) (v : Nat)               -- the caller constructs the temporary Payload(v)
+  | clear (i : Nat) (inv : Bool)             -- destroy slot i's content; leave `invalid` (vtable_ = invalid_obj) or `none`
+  | emplaceIn (j : Nat) (c : Cls) (v : Nat) (a : Nat)   -- construct a payload in place (inline or allocate+construct)
+  | emplaceFromTemp (j : Nat) (a : Nat)      -- move-construct the temporary into slot j's storage (inline or heap)
+  | moveInto (j i : Nat)                     -- erased move-constructor: slot j's storage from slot i
+  | swap (i j : Nat)
+  | arm
+  deriving DecidableEq, Repr
 
-def moveCtorEff (s : St) (j i : Nat) : Eff :=
-  match moveFrom s (s.slot i) with
-  | .threw => ⟨[], s.slot, .threw, false⟩
-  | .done evs d sa => ⟨evs, upd (upd s.slot i sa) j d, .ok, s.armed⟩
+def primEff (cfg : Cfg) (s : St) : Prim → Eff
+  | .mkTemp c v =>
+    if s.slot tmp = .none then ⟨[.ctor s.next c v], upd s.slot tmp (.inl s.next), .ok, s.armed⟩ else s.bad
+  | .clear i inv =>
+    if i < 4 then ⟨destroyEvs (s.slot i), upd s.slot i (if inv then .invalid else .none), .ok, s.armed⟩
+    else s.bad
+  | .emplaceIn j c v a =>
+    if j < 3 && (s.slot j).hollow then
+      ⟨(if cfg.inplace c then [] else [.al a]) ++ [.ctor s.next c v], upd s.slot j (cfg.place c s.next a), .ok, s.armed⟩
+    else s.bad
+  | .emplaceFromTemp j a =>
+    match s.slot tmp with
+    | .inl t =>
+      if j < 3 && (s.slot j).hollow then
+        if s.cls t = .st && s.armed then
+          -- the payload's move constructor throws: heap storage is given back, the target keeps
+          -- whatever (payload-less) state it had
+          ⟨(if cfg.inplace (s.cls t) then [] else [.al a, .de a]), s.slot, .threw, false⟩
+        else
+          ⟨(if cfg.inplace (s.cls t) then [] else [.al a]) ++ [.move s.next t],
+            upd s.slot j (cfg.place (s.cls t) s.next a), .ok, s.armed⟩
+      else s.bad
+    | _ => s.bad
+  | .moveInto j i =>
+    if j < 3 && i < 3 && i ≠ j && (s.slot j).hollow then
+      match moveFrom s (s.slot i) with
+      | .threw => ⟨[], s.slot, .threw, false⟩
+      | .done evs d sa => ⟨evs, upd (upd s.slot i sa) j d, .ok, s.armed⟩
+    else s.bad
+  | .swap i j =>
+    if i < 3 && j < 3 then ⟨[], upd (upd s.slot i (s.slot j)) j (s.slot i), .ok, s.armed⟩ else s.bad
+  | .arm => ⟨[], s.slot, .ok, true⟩
 
-def moveAssignEff (s : St) (i j : Nat) : Eff :=
-  if i = j then ⟨[], s.slot, .ok, s.armed⟩
-  else
-    match moveFrom s (s.slot j) with
-    | .threw => ⟨destroyEvs (s.slot i), upd s.slot i .invalid, .threw, false⟩
-    | .done evs d sa => ⟨destroyEvs (s.slot i) ++ evs, upd (upd s.slot j sa) i d, .ok, s.armed⟩
+/-- run primitives in order; all of them run even if one threw (the temporary is destroyed during
+    unwinding); reports the concatenated events and whether any of them threw -/
+def runPrims (cfg : Cfg) : St → List Prim → St × List Event × Bool
+  | s, [] => (s, [], false)
+  | s, p :: ps =>
+    let r := s.apply (primEff cfg s p)
+    let q := runPrims cfg r.1 ps
+    (q.1, r.2.events ++ q.2.1, (r.2.res == .threw) || q.2.2)
 
 def invokeEff (s : St) (i : Nat) (thr : Bool) : Eff :=
   match s.slot i with
@@ -218,21 +248,40 @@ def invokeEff (s : St) (i : Nat) (thr : Bool) : Eff :=
 def engaged (s : St) (i : Nat) : Bool := decide (i < 3) && (s.slot i != .none)
 def vacant (s : St) (i : Nat) : Bool := decide (i < 3) && (s.slot i == .none)
 
-def eff (cfg : Cfg) (s : St) : Op → Eff
-  | .ctor j c v m => if vacant s j then ctorEff cfg s j c v m else s.bad
-  | .moveCtor j i => if vacant s j && engaged s i then moveCtorEff s j i else s.bad
-  | .moveAssign i j => if engaged s i && engaged s j then moveAssignEff s i j else s.bad
-  | .assignValue i c v => if !cfg.unique && engaged s i then assignValueEff cfg s i c v else s.bad
-  | .swap i j =>
-    if cfg.unique && engaged s i && engaged s j then
-      ⟨[], upd (upd s.slot i (s.slot j)) j (s.slot i), .ok, s.armed⟩
-    else s.bad
-  | .invoke i => if engaged s i then invokeEff s i false else s.bad
-  | .invokeThrow i => if engaged s i then invokeEff s i true else s.bad
-  | .destroy i => if engaged s i then ⟨destroyEvs (s.slot i), upd s.slot i .none, .ok, s.armed⟩ else s.bad
-  | .arm => ⟨[], s.slot, .ok, true⟩
+/-- the member function called by an operation, as a sequence of primitives; `none` = the real API
+    makes the call impossible (wrong variable state) -/
+def compile (cfg : Cfg) (s : St) : Op → Option (List Prim)
+  | .ctor j c v m =>
+    if vacant s j then
+      some (if m.isConv then [.mkTemp c v, .emplaceFromTemp j (m.alloc cfg), .clear tmp false]
+            else [.emplaceIn j c v (m.alloc cfg)])
+    else none
+  | .moveCtor j i => if vacant s j && engaged s i then some [.moveInto j i] else none
+  | .moveAssign i j =>
+    if engaged s i && engaged s j then
+      -- self-assignment is a no-op; else destroy, vtable_ = invalid_obj, move-construct
+      some (if i = j then [] else [.clear i true, .moveInto i j])
+    else none
+  | .assignValue i c v =>
+    if !cfg.unique && engaged s i then
+      some [.mkTemp c v, .clear i true, .emplaceFromTemp i cfg.dflt, .clear tmp false]
+    else none
+  | .swap i j => if cfg.unique && engaged s i && engaged s j then some [.swap i j] else none
+  | .destroy i => if engaged s i then some [.clear i false] else none
+  | .arm => some [.arm]
+  | .invoke _ => none
+  | .invokeThrow _ => none
 
-def step (cfg : Cfg) (s : St) (op : Op) : St × Out := s.apply (eff cfg s op)
+def step (cfg : Cfg) (s : St) (op : Op) : St × Out :=
+  match op with
+  | .invoke i => s.apply (if engaged s i then invokeEff s i false else s.bad)
+  | .invokeThrow i => s.apply (if engaged s i then invokeEff s i true else s.bad)
+  | op =>
+    match compile cfg s op with
+    | none => s.apply s.bad
+    | some ps =>
+      let q := runPrims cfg s ps
+      (q.1, ⟨q.2.1, if q.2.2 then .threw else .ok⟩)
 
 /-- run a whole sequence: final state and the per-op observations -/
 def run (cfg : Cfg) : St → List Op → St × List Out
